@@ -145,6 +145,33 @@ packet PA2 { u16 a, }
 packet PB1 { u8 b, }
 packet PB2 { i64 b, }
 """,
+    # packets nothing refers to (legal: a library of messages), in an order that is not alphabetical
+    "unreached": opts() + """root packet Head {
+    u8 a,
+    Used,
+}
+packet Zed { u8 z, }
+packet Used { u16 u, }
+packet Mid { string m, }
+packet Alpha { i32 q, Mid, }
+packet Beta { repeat u8 bs, }
+""",
+    # key and match inside an inline object (its packet has no match-field table in the model)
+    "inlmatch": opts() + """root packet Envelope {
+    u16 seq,
+    Body {
+        u8 kind,
+        match kind as payload {
+            1 : Ping,
+            [2, 3] : Pong,
+        },
+        u8 after,
+    },
+    u8 tail,
+}
+packet Ping { u8 p, }
+packet Pong { u16 q, string why, }
+""",
     # the Go test file of Foo and the Go code file of FooTest are both foo_test.go
     "nameclash": opts() + """root packet Foo {
     u8 a,
